@@ -551,6 +551,32 @@ def coherence_obligations(world, prop, rel, cname, seeds_ok=()):
                 for j, e in enumerate(seq[:i]))
             if not (dep <= handled or later_reset or earlier_reset):
                 problems.append((ev0, sorted(dep - handled)))
+        # reading a lazy attribute inside a mutator *after* the mutator wrote a field that the
+        # attribute's getter reads returns the post-state value if the attribute is not cached
+        # yet, and the pre-state value if it is: a subsequent re-seeding from that read (rescale
+        # the cached array) is only right when the read is guarded by "the attribute is cached"
+        genc = GuardEnc()
+        for i, ev0 in enumerate(seq):
+            if ev0.kind != 'seed' or ev0.field not in lazies:
+                continue
+            L = ev0.field
+            reads = [(j, e) for j, e in enumerate(seq[:i]) if e.kind == 'lazyread' and e.field == L
+                     and e.line == ev0.line]
+            if not reads:
+                continue
+            j, rd = reads[-1]
+            stale = [e for e in seq[:j] if e.kind in ('write', 'inplace')
+                     and e.field in rstar.get(L, ())]
+            if not stale:
+                continue
+            # the read happens under its guards: they must imply cached:L
+            g = genc.conj(rd.guards)
+            if sat(g, z3.Not(genc.atom(f'cached:{L}'))):
+                problems.append((rd, [f'{L!r} is read to re-seed its own cache after '
+                                      f'{stale[0].field!r} (which its getter reads) was written, '
+                                      'without a guard that it is already cached: an uncached '
+                                      'read computes from the new state and the update is '
+                                      'applied twice']))
         seeded = sorted({e.field for e in seq if e.kind == 'seed' and e.field in lazies})
         mname = fi.name + ('.setter' if fi.is_setter else '')
         owners = {k.name for k in cls.mro(world)}
@@ -571,7 +597,9 @@ def coherence_obligations(world, prop, rel, cname, seeds_ok=()):
                    'bounded)' if seeded else ''))
         if problems:
             w, dep = problems[0]
-            if w.kind == 'seed' and dep and not str(dep[0]).startswith('unverified'):
+            if w.kind == 'lazyread':
+                detail = f'{w.func}:{w.line}: {dep[0]}'
+            elif w.kind == 'seed' and dep and not str(dep[0]).startswith('unverified'):
                 detail = (f'{w.func}:{w.line} re-seeds the cache of {w.field!r} but leaves the '
                           f'cached attributes {dep}, which are computed from it, stale')
             elif w.kind == 'seed':
